@@ -12,6 +12,8 @@ def run(rep):
     compilerp.provenance_obligations(rep)
     templates.discipline_obligations(rep)
     size_guards(rep)
+    # with debug options the output must still load: debug text stays inside comment lines
+    compilerp.debug_noninterference_obligations(rep)
     from . import control
     control.clause_deductive(rep, targets=['yp_generator.YPPrologCompiler.nesting_depth', 'yp_generator.YPPrologCompiler.compile_function_body',
                                             'yp_generator.YPPrologCompiler.compile_expression', 'yp_generator.YPPrologCompiler.compile_list'], literal_lemma=False)
